@@ -150,6 +150,16 @@ def compare_lcd(fam, fe, ris, kernel, g, flags):
                           "the maximum %r (cycles: %r)" % (col, mx, sorted(exp))))
     elif col:
         probs.append(("column", "LCD column %r although there is no cycle" % col))
+    if len(obs) >= 2:
+        # the list of loop-carried dependencies printed below the table names every cycle
+        full = RP.parse(fe.full_analysis(kernel, g, ignore_unknown=True).lstrip("\n"))
+        ln = [k.line_number for k in kernel]
+        listed = sorted((tuple(sorted(l["members"])), round(float(l["latency"]), 1))
+                        for l in full.lcd_list)
+        want = sorted((tuple(sorted(ln[i] for i, _ in m)), round(l, 1)) for m, l, _, _ in obs)
+        if listed != want:
+            probs.append(("list", "the report lists the cycles %r, the analysis found %r"
+                          % (listed, want)))
     return probs, len(exp | got) + 2, 0, (tuple(sorted(got)), mx)
 
 
